@@ -323,13 +323,36 @@ def check_objects(ctx, quick):
         'cores_n0_near': lambda A: [G + 0. for G in A.cores(r=3, noise=0., only_near=True)],
         'sample': lambda A: A.sample(),
     }
+    replay_object(ctx, res, 'ANOVA object (order 2, shape %s)' % n, obj, methods, 'call')
+    # the functional variant: coefficients are computed lazily on first use, cores at several accuracies
+    resf = tlc.run('ObjHistory', cfg='ObjHistory_func.cfg', workers=4, timeout=900)
+    ctx.add_tlc(resf, 'ObjHistory (ANOVA_func methods): every method sequence up to length 3 (emitted)')
+    Xf = np.random.default_rng(3).uniform(-1., 1., size=(80, 3))
+    yf = 1. + Xf[:, 0] ** 2 - 0.5 * Xf[:, 1] + np.cos(Xf[:, 2])
+
+    def objf():
+        return teneva.ANOVA_func(Xf.copy(), yf.copy(), 4, -1., 1., 1e-6)
+    methods_f = {
+        'coeffs': lambda A: A.coeffs,
+        'cores_e8': lambda A: A.cores(),
+        'cores_e2': lambda A: A.cores(e=1e-2),
+        'cores_e12': lambda A: A.cores(e=1e-12),
+        'cores_e0': lambda A: A.cores(e=0.),
+    }
+    replay_object(ctx, resf, 'ANOVA_func object (3 variables, 4 basis functions)', objf, methods_f, 'coeffs')
+
+
+def replay_object(ctx, res, title, obj, methods, probe):
+    if not res.json:
+        raise tlc.TlcError('ObjHistory emitted nothing')
+    n = title
     broken = set()
     # building the object again from the same data and seed is itself a history: it must work and give the same object
     try:
-        fa, fb = fp(RG.quiet(methods['call'], obj())), fp(RG.quiet(methods['call'], obj()))
-        ctx.check(fa == fb, 'history:ANOVA', 'a second ANOVA object built from the same data and seed evaluates differently from the first')
+        fa, fb = fp(RG.quiet(methods[probe], obj())), fp(RG.quiet(methods[probe], obj()))
+        ctx.check(fa == fb, 'history:ANOVA', '%s: a second object built from the same data and seed evaluates differently from the first' % title)
     except Exception as ex:
-        ctx.violation('history:ANOVA', 'building / evaluating a second ANOVA object from the same data and seed raised %s: %s' % (type(ex).__name__, ex))
+        ctx.violation('history:ANOVA', '%s: building / evaluating a second object from the same data and seed raised %s: %s' % (title, type(ex).__name__, ex))
         return
     for name, m_ in methods.items():
         try:
@@ -338,7 +361,7 @@ def check_objects(ctx, quick):
             # every method works on a fresh object of the pinned tree: an exception here is a verdict (sequences using the
             # method are skipped)
             broken.add(name)
-            ctx.violation('history:ANOVA', 'ANOVA method %s raised %s on a fresh object (order 2, shape %s): %s' % (name, type(ex).__name__, n, ex))
+            ctx.violation('history:ANOVA', '%s: method %s raised %s on a fresh object: %s' % (title, name, type(ex).__name__, ex))
     seen = {}
     nrun = 0
     for hist in res.json:
@@ -346,7 +369,7 @@ def check_objects(ctx, quick):
             continue
         nrun += 1
         A, rseq = obj(), []
-        ctx.case(key=('object-history', tuple((st['op'], st['x']) for st in hist)), nontrivial=len({st['x'] for st in hist}) > 1)
+        ctx.case(key=('object-history', title, tuple((st['op'], st['x']) for st in hist)), nontrivial=len({st['x'] for st in hist}) > 1)
         for pos, st in enumerate(hist):
             if st['op'] == 'N':
                 A, rseq = obj(), []
@@ -356,13 +379,13 @@ def check_objects(ctx, quick):
             try:
                 got = fp(RG.quiet(methods[st['x']], A))
             except Exception as ex:
-                ctx.violation('history:ANOVA', 'ANOVA object (order 2): the call sequence %s raised %s: %s (every method works on a fresh object)' % (what, type(ex).__name__, ex), case={'hist': hist})
+                ctx.violation('history:ANOVA', '%s: the call sequence %s raised %s: %s (every method works on a fresh object)' % (title, what, type(ex).__name__, ex), case={'hist': hist})
                 break
             if st['op'] == 'R':
                 rseq.append(st['x'])
             if key in seen:
-                ctx.check(seen[key][0] == got, 'history:ANOVA', 'ANOVA object (order 2): %s after [%s] differs from the same call after [%s] (same data, seed, arguments%s)'
-                          % (st['x'], what, seen[key][1], '' if st['op'] == 'M' else ' and same earlier draws'), case={'hist': hist})
+                ctx.check(seen[key][0] == got, 'history:ANOVA', '%s: %s after [%s] differs from the same call after [%s] (same data, seed, arguments%s)'
+                          % (title, st['x'], what, seen[key][1], '' if st['op'] == 'M' else ' and same earlier draws'), case={'hist': hist})
             else:
                 seen[key] = (got, what)
     if nrun == 0 and not broken:
